@@ -63,4 +63,84 @@ func Values
   loop 0 invariant fresh(values) && !itermod && len(values) == niter
   loop 0 invariant forall j :: 0 <= j && j < len(values) ==> (exists k K :: visited[k] && has(m, k) && m[k] == values[j])
   loop 0 invariant forall k K :: {visited[k]} visited[k] ==> has(m, k) && (exists j :: 0 <= j && j < len(values) && values[j] == m[k])
+
+// ---------------------------------------------------------------- C11
+// The two directions are mutually inverse (hence both are bijections and have equal size).
+
+type Bimap(b) invariant (b.forward == nil) == (b.reverse == nil) && (forall k K :: {has(b.forward, k)} has(b.forward, k) ==> has(b.reverse, b.forward[k]) && b.reverse[b.forward[k]] == k) && (forall v V :: {has(b.reverse, v)} has(b.reverse, v) ==> has(b.forward, b.reverse[v]) && b.forward[b.reverse[v]] == v) && len(b.forward) == len(b.reverse)
+
+func Bimap.Len
+  property C11
+  ensures[nil]    b == nil ==> result == 0
+  ensures[nonnil] b != nil ==> result == len(b.forward)
+
+func Bimap.GetForward
+  property C11
+  requires b != nil
+  ensures[def] result1 == has(b.forward, key) && result0 == b.forward[key]
+
+func Bimap.GetReverse
+  property C11
+  requires b != nil
+  ensures[def] result1 == has(b.reverse, value) && result0 == b.reverse[value]
+
+func Bimap.ContainsForward
+  property C11
+  requires b != nil
+  ensures[def] result == has(b.forward, key)
+
+func Bimap.ContainsReverse
+  property C11
+  requires b != nil
+  ensures[def] result == has(b.reverse, value)
+
+func Bimap.Add
+  property C11
+  requires b != nil && inv(b)
+  ensures[inv]    inv(b)
+  ensures[pair]   has(b.forward, key) && b.forward[key] == value && has(b.reverse, value) && b.reverse[value] == key
+  ensures[others] forall k K :: {has(b.forward, k)} k != key ==> has(b.forward, k) == (old(has(b.forward, k)) && old(b.forward[k]) != value) && (has(b.forward, k) ==> b.forward[k] == old(b.forward[k]))
+  ensures[nilmaps] old(b.forward) != nil ==> b.forward == old(b.forward) && b.reverse == old(b.reverse)
+  assigns fields(b), map(b.forward), map(b.reverse)
+
+func Bimap.RemoveForward
+  property C11
+  requires b != nil && inv(b)
+  ensures[inv]    inv(b)
+  ensures[gone]   !has(b.forward, key) && (old(has(b.forward, key)) ==> !has(b.reverse, old(b.forward[key])))
+  ensures[others] forall k K :: {has(b.forward, k)} k != key ==> has(b.forward, k) == old(has(b.forward, k)) && b.forward[k] == old(b.forward[k])
+  assigns map(b.forward), map(b.reverse)
+
+func Bimap.RemoveReverse
+  property C11
+  requires b != nil && inv(b)
+  ensures[inv]    inv(b)
+  ensures[gone]   !has(b.reverse, value) && (old(has(b.reverse, value)) ==> !has(b.forward, old(b.reverse[value])))
+  ensures[others] forall v V :: {has(b.reverse, v)} v != value ==> has(b.reverse, v) == old(has(b.reverse, v)) && b.reverse[v] == old(b.reverse[v])
+  assigns map(b.forward), map(b.reverse)
+
+func Bimap.Clear
+  property C11
+  requires b != nil && inv(b)
+  ensures[inv]   inv(b)
+  ensures[empty] len(b.forward) == 0 && (forall k K :: {has(b.forward, k)} !has(b.forward, k)) && (forall v V :: {has(b.reverse, v)} !has(b.reverse, v))
+  assigns map(b.forward), map(b.reverse)
+
+func Bimap.Clone
+  property C11
+  requires b != nil && inv(b)
+  ensures[inv]   inv(result)
+  ensures[fresh] result.forward != nil && fresh(result.forward) && result.reverse != nil && fresh(result.reverse)
+  ensures[same]  forall k K :: {has(result.forward, k)} has(result.forward, k) == has(b.forward, k) && result.forward[k] == b.forward[k]
+
+func Bimap.Range
+  property C11
+  requires b != nil
+  ensures[pairs]  forall i :: 0 <= i && i < loglen(f) ==> has(b.forward, logarg(f, 0, i)) && b.forward[logarg(f, 0, i)] == logarg(f, 1, i)
+  ensures[once]   forall i, j :: 0 <= i && i < j && j < loglen(f) ==> logarg(f, 0, i) != logarg(f, 0, j)
+  ensures[stop]   forall i :: 0 <= i && i < loglen(f) - 1 ==> f(logarg(f, 0, i), logarg(f, 1, i))
+  ensures[all]    (forall i :: 0 <= i && i < loglen(f) ==> f(logarg(f, 0, i), logarg(f, 1, i))) ==> loglen(f) == len(b.forward)
+  loop 0 invariant !itermod && loglen(f) == niter
+  loop 0 invariant forall i :: 0 <= i && i < loglen(f) ==> visited[logarg(f, 0, i)] && has(b.forward, logarg(f, 0, i)) && b.forward[logarg(f, 0, i)] == logarg(f, 1, i) && f(logarg(f, 0, i), logarg(f, 1, i))
+  loop 0 invariant forall i, j :: 0 <= i && i < j && j < loglen(f) ==> logarg(f, 0, i) != logarg(f, 0, j)
 @*/
